@@ -230,7 +230,7 @@ class Writer:
         if data and (min(data) < 0 or max(data) >= (1 << self.word_size)):
             bad_word = next(word for word in data if word < 0 or word >= (1 << self.word_size))
             raise FlipJumpWriteFjmException(
-                f"data word {bad_word} doesn't fit in the {self.word_size}-bits memory-width "
+                f"data word {hex(bad_word)} doesn't fit in the {self.word_size}-bits memory-width "
                 f"(must be in [0, {hex(1 << self.word_size)}))."
             )
 
